@@ -61,6 +61,7 @@ type Sched struct {
 	parked map[string]*parkEntry
 	goids  map[int64]string // goroutine id -> task name (root tasks only)
 	depth  map[int64]int    // goroutine id -> reloadLock read-lock depth
+	atomic map[int64]int    // goroutine id -> inside a harness-internal call that must stay one step
 	live   int              // harness goroutines that have not returned yet (tasks + async closures)
 
 	rng    *rand.Rand
@@ -90,16 +91,17 @@ type Sched struct {
 	lastT  string
 
 	// callbacks into the run
-	onQuiescent   func()             // scheduler goroutine, everything parked
-	onRw          func(ev string)    // main db writer lock notifications: acquired | committed | released
-	onRestore     func(point string) // reload.lock.after / reload.unlock.after on the main db
-	onSeam        func(site string, key []byte) error
-	Windows       bool // conc profile: sometimes release a set of tasks at once, for one step each (race windows)
-	WindowsOpened int
-	ClockSleeps   int
-	NestedRLockP  int // probe: RLock requested while a restore was pending or held
-	RestoreWaited int // probe: restore had to wait for open transactions
-	harnessErr    string
+	onQuiescent    func()             // scheduler goroutine, everything parked
+	onRw           func(ev string)    // main db writer lock notifications: acquired | committed | released
+	onRestore      func(point string) // reload.lock.after / reload.unlock.after on the main db
+	onSeam         func(site string, key []byte) error
+	Windows        bool // conc profile: sometimes release a set of tasks at once, for one step each (race windows)
+	YieldAtRUnlock bool // snap profile: reload.runlock.after is a scheduling point
+	WindowsOpened  int
+	ClockSleeps    int
+	NestedRLockP   int // probe: RLock requested while a restore was pending or held
+	RestoreWaited  int // probe: restore had to wait for open transactions
+	harnessErr     string
 }
 
 func NewSched(seed uint64, replay []string, maxSteps int) *Sched {
@@ -107,6 +109,7 @@ func NewSched(seed uint64, replay []string, maxSteps int) *Sched {
 		parked:   map[string]*parkEntry{},
 		goids:    map[int64]string{},
 		depth:    map[int64]int{},
+		atomic:   map[int64]int{},
 		rng:      rand.New(rand.NewPCG(seed, seed^0x9e3779b97f4a7c15)),
 		replay:   replay,
 		MaxSteps: maxSteps,
@@ -492,6 +495,13 @@ func (s *Sched) SimHook(point string, db *boltz.DbImpl) {
 		if s.depth[g] > 0 {
 			s.depth[g]--
 		}
+		if name, isTask := s.goids[g]; isTask && s.YieldAtRUnlock && s.depth[g] == 0 && !s.abort && s.atomic[g] == 0 {
+			// a scheduling point right after the read lock is released (snap profile): whatever the caller still does
+			// with the database afterwards is no longer protected from a restore
+			s.mu.Unlock()
+			s.park(name, "rlock.released", NeedNone)
+			return
+		}
 	case "reload.lock.before":
 		s.lockPending = true
 		if s.readers > 0 {
@@ -590,6 +600,21 @@ func (s *Sched) WriterHeld() bool {
 	s.mu.Lock()
 	defer s.mu.Unlock()
 	return s.writerHeld
+}
+
+// Atomic runs a harness-internal database call (a dump, a marker read, a timeline request whose expectation is read
+// right after it) without the optional scheduling point after the read lock is released.
+func (s *Sched) Atomic(fn func()) {
+	g := goid()
+	s.mu.Lock()
+	s.atomic[g]++
+	s.mu.Unlock()
+	defer func() {
+		s.mu.Lock()
+		s.atomic[g]--
+		s.mu.Unlock()
+	}()
+	fn()
 }
 
 // ReloadHeld: the restore holds reloadLock.Lock right now.
